@@ -17,8 +17,11 @@ R20-d  acceptance discipline in _generate_io: after parse_next_remote_packet eve
 from __future__ import annotations
 
 import ast
+import re
 
-from ..core import AnalysisError, ancestors, call_name, get_kwarg, names_in, norm, parents_map, self_attr, short, walk_local
+from typing import Optional
+
+from ..core import AnalysisError, FuncInfo, ancestors, call_name, get_kwarg, names_in, norm, parents_map, self_attr, short, walk_local
 from ..engine import Engine
 from ..report import Check
 
@@ -281,6 +284,11 @@ def run(chk: Check, eng: Engine) -> None:
                     "the forecaster rebuilds the history with fresh (writable) message roots: a repair aimed at an earlier, already exchanged message rewrites it, and "
                     "Fandango continues the run against a conversation that never took place", path=gcfg.describe_path(p) if p else [], keyparts="history-unsealed")
 
+    chk.rule("R20-h", "a parse of the history is adopted only if every message agrees with the recorded one in type, sender and recipient (each conjunct compares the two messages)", floor=1)
+    pair_agreement_rule(chk, eng, "R20-h")
+    chk.rule("R20-g", "the fragment scanner returns a position of the receive buffer it was given together with the fragment at that position (the position is later compared "
+             "with buffer positions by clear_by_party)", floor=1)
+    scanner_index_rule(chk, eng, "R20-g")
     # ---- R20-f ---------------------------------------------------------------
     # the receive buffer is trimmed up to the fragment index stored with the accepted parse, not up to the scanning cursor
     chk.rule("R20-f", "the receive buffer is cleared up to the fragment index recorded with the accepted parse (same entry as the returned tree)", floor=1)
@@ -326,6 +334,153 @@ def run(chk: Check, eng: Engine) -> None:
                     "and are deleted with it", keyparts="clear-index-not-from-accepted-parse")
 
 
+def pair_agreement_rule(chk: Check, eng: Engine, rule: str) -> None:
+    """R20-h.  predict() re-parses the recorded history and keeps a parse only if it agrees with what was exchanged; the parse then gets the
+    real messages copied in and can become the final interaction tree.  In every loop over `zip(<recorded msgs>, <parsed msgs>)` whose body adopts
+    content (`set_children`), the guarding test must compare *the two* messages: each conjunct depends on both loop variables (a conjunct over
+    one of them is a tautology or says nothing about agreement), and sender, recipient and the message type are each compared."""
+    pf = eng.cls("fandango.io.navigation.packetforecaster", "PacketForecaster")
+    pr = eng.method(pf, "predict", inherited=False)
+    n = 0
+    for lp in walk_local(pr.node):
+        if not (isinstance(lp, ast.For) and isinstance(lp.iter, ast.Call) and call_name(lp.iter) == "zip" and isinstance(lp.target, ast.Tuple) and len(lp.target.elts) == 2
+                and all(isinstance(e, ast.Name) for e in lp.target.elts)):
+            continue
+        v1, v2 = (e.id for e in lp.target.elts)  # type: ignore[union-attr]
+        # locals defined from the loop variables inside the loop
+        dep: dict[str, set[str]] = {v1: {v1}, v2: {v2}}
+        text: dict[str, str] = {}
+        grew = True
+        while grew:
+            grew = False
+            for a in ast.walk(lp):
+                if isinstance(a, ast.Assign) and len(a.targets) == 1 and isinstance(a.targets[0], ast.Name):
+                    d = set().union(*[dep.get(x, set()) for x in names_in(a.value)]) if names_in(a.value) else set()
+                    nm = a.targets[0].id
+                    if d and d != dep.get(nm):
+                        dep[nm] = d | dep.get(nm, set())
+                        text[nm] = norm(a.value)
+                        grew = True
+
+        def deps(e: ast.AST) -> set[str]:
+            return set().union(*[dep.get(x, set()) for x in names_in(e)]) if names_in(e) else set()
+
+        def expand(e: ast.AST) -> str:
+            t = norm(e)
+            for _ in range(4):
+                for nm, tx in text.items():
+                    t = re.sub(rf"\b{re.escape(nm)}\b", f"({tx})", t)
+            return t
+
+        for iff in ast.walk(lp):
+            if not (isinstance(iff, ast.If) and any(isinstance(c, ast.Call) and call_name(c) == "set_children" for st in iff.body for c in ast.walk(st))):
+                continue
+            n += 1
+            conj = iff.test.values if isinstance(iff.test, ast.BoolOp) and isinstance(iff.test.op, ast.And) else [iff.test]
+            compared: set[str] = set()
+            for c in conj:
+                if not (isinstance(c, ast.Compare) and len(c.ops) == 1 and isinstance(c.ops[0], ast.Eq)):
+                    continue
+                l, r = deps(c.left), deps(c.comparators[0])
+                one_sided = not ((v1 in l and v2 in r) or (v2 in l and v1 in r)) or (l == r and len(l) == 1)
+                if one_sided:
+                    chk.bad(rule, eng.relfile(pr), c.lineno, pr.fq, f"`{short(c, 70)}` does not compare the recorded message with the parsed one (both sides depend on {sorted(l | r)})",
+                            "a parse of the history that differs from what was exchanged in this attribute is kept, gets the real contents copied in and can become the reported "
+                            "interaction: a message is attributed to a party that never sent / received it", keyparts="agreement-one-sided|" + norm(c))
+                    continue
+                lt, rt = expand(c.left), expand(c.comparators[0])
+                for attr in ("sender", "recipient"):
+                    if f".{attr}" in lt and f".{attr}" in rt:
+                        compared.add(attr)
+                if ("symbol" in lt or "name()" in lt or "to_non_terminal" in lt) and ("symbol" in rt or "name()" in rt or "to_non_terminal" in rt):
+                    compared.add("type")
+            missing = [a for a in ("type", "sender", "recipient") if a not in compared]
+            if missing:
+                chk.bad(rule, eng.relfile(pr), iff.lineno, pr.fq, f"the agreement test `{short(iff.test, 80)}` does not compare {missing} of the two messages",
+                        "parses that disagree with the recorded exchange in that attribute survive and are reported", keyparts="agreement-missing|" + ",".join(missing))
+            else:
+                chk.ok(rule, pr.fq, iff.lineno, f"recorded and parsed message are compared in type, sender and recipient before content is adopted (`{v1}` vs `{v2}`)")
+    if n == 0:
+        raise AnalysisError("PacketForecaster.predict: no loop over zipped (recorded, parsed) messages that adopts content found")
+
+
+def scanner_index_rule(chk: Check, eng: Engine, rule: str) -> None:
+    """R20-g.  `clear_by_party(party, to_idx)` compares `to_idx` with positions of the receive buffer itself.  The position comes from the
+    fragment scanner (the helper that parse_next_remote_packet calls with `get_received_msgs()`): what it returns as (position, fragment) must be
+    a position *of the list it was given* and the fragment *at that position* - an index into a filtered or otherwise derived list is a
+    different domain (with two remote parties whose fragments interleave, too few or the wrong fragments are acknowledged)."""
+    pnr = eng.func("fandango.io.packetparser", "parse_next_remote_packet")
+    mod = eng.module("fandango.io.packetparser")
+    scanners: dict[str, int] = {}
+    for c in walk_local(pnr.node):
+        if isinstance(c, ast.Call) and isinstance(c.func, ast.Name):
+            for i, a in enumerate(c.args):
+                if isinstance(a, ast.Call) and call_name(a) == "get_received_msgs":
+                    r = eng.ix.resolve_name(mod, c.func.id)
+                    if isinstance(r, FuncInfo) and any(isinstance(st, ast.Return) and isinstance(st.value, ast.Tuple) for st in walk_local(r.node)):
+                        scanners[r.fq] = i
+    if not scanners:
+        raise AnalysisError("parse_next_remote_packet: no fragment scanner (a helper called with get_received_msgs() that returns a pair) found")
+    for fq, pos in sorted(scanners.items()):
+        f = next(g for g in eng.ix.all_functions if g.fq == fq)
+        params = f.params()
+        if pos >= len(params):
+            raise AnalysisError(f"{fq}: buffer parameter not found")
+        buf = params[pos]
+        pm = parents_map(f.node)
+
+        def is_buf_slice(e: ast.AST) -> Optional[ast.AST]:
+            """P -> offset None... returns the lower bound expression if e is P[lo:], P itself -> Constant 0."""
+            if isinstance(e, ast.Name) and e.id == buf:
+                return ast.Constant(value=0)
+            if isinstance(e, ast.Subscript) and isinstance(e.value, ast.Name) and e.value.id == buf and isinstance(e.slice, ast.Slice) and e.slice.upper is None and e.slice.step is None:
+                return e.slice.lower or ast.Constant(value=0)
+            return None
+
+        for ret in [st for st in walk_local(f.node) if isinstance(st, ast.Return) and isinstance(st.value, ast.Tuple) and len(st.value.elts) == 2]:
+            idx, frag = ret.value.elts
+            if isinstance(idx, ast.UnaryOp) or (isinstance(idx, ast.Constant) and isinstance(idx.value, int) and idx.value < 0) or (isinstance(frag, ast.Constant) and frag.value is None):
+                continue  # the not-found answer
+            ok_idx = ok_frag = False
+            why = "is not bound by a loop over the positions of the buffer"
+            if isinstance(idx, ast.Name):
+                for lp in ancestors(pm, ret):
+                    if not isinstance(lp, ast.For):
+                        continue
+                    it = lp.iter
+                    # for idx in range(.., len(P))
+                    if isinstance(lp.target, ast.Name) and lp.target.id == idx.id and isinstance(it, ast.Call) and call_name(it) == "range" and it.args \
+                            and norm(it.args[-1] if len(it.args) < 3 else it.args[1]) == f"len({buf})":
+                        ok_idx = True
+                        # the fragment: unpacked from P[idx] inside the loop, or P[idx][k]
+                        for n in ast.walk(lp):
+                            if isinstance(n, ast.Assign) and isinstance(n.value, ast.Subscript) and norm(n.value.value) == buf and norm(n.value.slice) == idx.id:
+                                if isinstance(frag, ast.Name) and any(isinstance(x, ast.Name) and x.id == frag.id for t in n.targets for x in ast.walk(t)):
+                                    ok_frag = True
+                        if isinstance(frag, ast.Subscript) and isinstance(frag.value, ast.Subscript) and norm(frag.value.value) == buf and norm(frag.value.slice) == idx.id:
+                            ok_frag = True
+                    # for idx, (.., frag) in enumerate(P) / enumerate(P[s:], s)
+                    if isinstance(lp.target, ast.Tuple) and len(lp.target.elts) == 2 and isinstance(lp.target.elts[0], ast.Name) and lp.target.elts[0].id == idx.id \
+                            and isinstance(it, ast.Call) and call_name(it) == "enumerate" and it.args:
+                        lo = is_buf_slice(it.args[0])
+                        start = it.args[1] if len(it.args) > 1 else next((k.value for k in it.keywords if k.arg == "start"), ast.Constant(value=0))
+                        if lo is not None and norm(lo) == norm(start):
+                            ok_idx = True
+                            if isinstance(frag, ast.Name) and any(isinstance(x, ast.Name) and x.id == frag.id for x in ast.walk(lp.target.elts[1])):
+                                ok_frag = True
+                        elif lo is not None:
+                            why = f"counts from `{short(start)}` while the scan starts at `{short(lo)}`"
+            if ok_idx and ok_frag:
+                chk.ok(rule, f.fq, ret.lineno, f"`{short(ret, 60)}`: position of `{buf}` and the fragment at that position")
+            elif not ok_idx:
+                chk.bad(rule, eng.relfile(f), ret.lineno, f.fq, f"`{short(ret, 60)}`: the returned position `{short(idx)}` {why} `{buf}`",
+                        "the caller hands the position to clear_by_party(), which compares it with positions of the receive buffer: with interleaved fragments of two remote "
+                        "parties the wrong fragments are acknowledged (a consumed fragment is delivered again, a new one is skipped)", keyparts="scanner-index-domain")
+            else:
+                chk.bad(rule, eng.relfile(f), ret.lineno, f.fq, f"`{short(ret, 60)}`: the returned fragment `{short(frag)}` is not the element of `{buf}` at the returned position",
+                        "position and content disagree: the parser consumes one fragment and the buffer is trimmed at another", keyparts="scanner-fragment-mismatch")
+
+
 # ------------------------------------------------------------------ self-test variants
 from ..mutants import M  # noqa: E402
 
@@ -333,6 +488,13 @@ _IO = "src/fandango/io/__init__.py"
 _ALG = "src/fandango/evolution/algorithm.py"
 _EV = "src/fandango/evolution/evaluation.py"
 MUTANTS = [
+    M("recipient-compared-with-itself", "src/fandango/io/navigation/packetforecaster.py", "                        and r_msg.recipient == orig_r_msg.recipient\n", "                        and r_msg.recipient == r_msg.recipient\n", "R20-h"),
+    M("recipient-not-compared", "src/fandango/io/navigation/packetforecaster.py", "                        and r_msg.recipient == orig_r_msg.recipient\n", "", "R20-h"),
+    M("sender-not-compared", "src/fandango/io/navigation/packetforecaster.py", "                        and r_msg.sender == orig_r_msg.sender\n", "", "R20-h"),
+    M("scanner-indexes-the-filtered-list", "src/fandango/io/packetparser.py", "    for idx in range(start_idx, len(messages)):\n        sender, recipient, msg_fragment = messages[idx]\n        if sender == role_sender:\n            return idx, msg_fragment\n",
+      "    fragments = [m for s, _, m in messages if s == role_sender]\n    if start_idx < len(fragments):\n        return start_idx, fragments[start_idx]\n", "R20-g"),
+    M("scanner-enumerates-the-tail-from-zero", "src/fandango/io/packetparser.py", "    for idx in range(start_idx, len(messages)):\n        sender, recipient, msg_fragment = messages[idx]\n        if sender == role_sender:\n",
+      "    for idx, (sender, recipient, msg_fragment) in enumerate(messages[start_idx:]):\n        if sender == role_sender:\n", "R20-g"),
     M("history-not-sealed", "src/fandango/evolution/population.py", "        tree.set_all_read_only(True)\n        dummy = DerivationTree(NonTerminal(\"<hookin>\"))\n", "        dummy = DerivationTree(NonTerminal(\"<hookin>\"))\n", "R20-e"),
     M("buffer-cleared-to-cursor", "src/fandango/io/packetparser.py", "    io_instance.clear_by_party(msg_sender, max_parse_idx)\n", "    io_instance.clear_by_party(msg_sender, current_fragment_idx)\n", "R20-f"),
     M("received-msg-unlocked", _IO, "        with self.receive_lock:\n            return len(self.receive) != 0", "        return len(self.receive) != 0", "R20-a"),
@@ -348,6 +510,10 @@ MUTANTS = [
       more=(("        if fitness >= self._expected_fitness:\n            if msg is None:", "        if True:\n            if msg is None:"),)),
 ]
 TWINS = [
+    M("twin-agreement-through-locals", "src/fandango/io/navigation/packetforecaster.py", "                    if (\n                        r_msg.msg.symbol.name()[9:] == orig_r_msg.msg.symbol.name()[1:]\n                        and r_msg.sender == orig_r_msg.sender\n",
+      "                    parsed_symbol = r_msg.msg.symbol\n                    past_symbol = orig_r_msg.msg.symbol\n                    if (\n                        parsed_symbol.name()[9:] == past_symbol.name()[1:]\n                        and orig_r_msg.sender == r_msg.sender\n", None),
+    M("twin-scanner-enumerates-the-tail-with-offset", "src/fandango/io/packetparser.py", "    for idx in range(start_idx, len(messages)):\n        sender, recipient, msg_fragment = messages[idx]\n        if sender == role_sender:\n",
+      "    for idx, (sender, recipient, msg_fragment) in enumerate(messages[start_idx:], start_idx):\n        if sender == role_sender:\n", None),
     M("twin-longest-parse-by-max", "src/fandango/io/packetparser.py", "    max_parse_idx = -1\n    best_parse_tree = None\n    best_non_terminal = None\n    for non_terminal, (parse_idx, parse_tree) in complete_parses.items():\n        if max_parse_idx < parse_idx:\n            max_parse_idx = parse_idx\n            best_parse_tree = parse_tree\n            best_non_terminal = non_terminal\n\n    assert best_non_terminal is not None\n",
       "    best_non_terminal, (max_parse_idx, best_parse_tree) = max(\n        complete_parses.items(), key=lambda entry: entry[1][0]\n    )\n", None),
     M("twin-lock-alias", _IO, "        with self.receive_lock:\n            return list(self.receive)", "        with self.receive_lock:\n            snapshot = list(self.receive)\n            return snapshot", None),
